@@ -168,9 +168,13 @@ class Image(SpanToken):
     repr_attributes = ("src", "title")
 
     def __init__(self, match):
-        self.src = EscapeSequence.strip(match.group(2))
-        self.title = EscapeSequence.strip(match.group(3))
         self.dest_type = getattr(match, "dest_type", None)
+        if self.dest_type in ("full", "collapsed", "shortcut"):
+            # destination and title of a link reference definition are stored resolved
+            self.src, self.title = match.group(2), match.group(3)
+        else:
+            self.src = EscapeSequence.strip(match.group(2))
+            self.title = EscapeSequence.strip(match.group(3))
         self.label = getattr(match, "label", None)
         self.title_delimiter = getattr(match, "title_delimiter", None)
 
@@ -189,9 +193,13 @@ class Link(SpanToken):
     repr_attributes = ("target", "title")
 
     def __init__(self, match):
-        self.target = EscapeSequence.strip(match.group(2))
-        self.title = EscapeSequence.strip(match.group(3))
         self.dest_type = getattr(match, "dest_type", None)
+        if self.dest_type in ("full", "collapsed", "shortcut"):
+            # destination and title of a link reference definition are stored resolved
+            self.target, self.title = match.group(2), match.group(3)
+        else:
+            self.target = EscapeSequence.strip(match.group(2))
+            self.title = EscapeSequence.strip(match.group(3))
         self.label = getattr(match, "label", None)
         self.title_delimiter = getattr(match, "title_delimiter", None)
 
